@@ -460,6 +460,16 @@ ViolC13(g, prev, r, g2) ==
   (IF r.panic THEN {} ELSE C13Walk(rx0, r.out, 1, g2.peerTAM, intended, prev.obs.stored))
   \cup (IF IsRecv(r, {"publish"}) /\ p.topic = "" /\ rp # <<>> /\ rp[1].pkt.topic # MapGet(g.aliasIn, p.alias)
         THEN {"C13c-delivered-with-wrong-topic"} ELSE {})
+  \* regulate_for_store: the store form carries the full topic the alias is bound to on THIS connection and no alias;
+  \* an alias-only packet whose alias was never bound cannot be regulated
+  \cup (IF Op(r) = "regulate" /\ ~r.panic /\ p.topic # ""
+           /\ ~(r.call.ok /\ Len(r.call.pkts) = 1 /\ r.call.pkts[1].topic = p.topic /\ r.call.pkts[1].alias = 0)
+        THEN {"C13d-regulated-form"} ELSE {})
+  \cup (IF Op(r) = "regulate" /\ ~r.panic /\ p.topic = "" /\ MapGet(g.rx, p.alias) # ""
+           /\ ~(r.call.ok /\ Len(r.call.pkts) = 1 /\ r.call.pkts[1].topic = MapGet(g.rx, p.alias) /\ r.call.pkts[1].alias = 0)
+        THEN {"C13d-regulated-form"} ELSE {})
+  \cup (IF Op(r) = "regulate" /\ ~r.panic /\ p.topic = "" /\ MapGet(g.rx, p.alias) = "" /\ r.call.ok
+        THEN {"C13d-unbound-alias-regulated"} ELSE {})
   \cup (IF IsRecv(r, {"publish"}) /\ r.call.flag /\ p.topic = "" /\ g.ver = "v50" /\ ~r.panic /\ p.size <= g.ownMPS
            /\ MapGet(g.aliasIn, p.alias) = "" /\ (rp # <<>> \/ ~HasErr(r.out))
         THEN {"C13c-unbound-alias-not-rejected"} ELSE {})
